@@ -139,7 +139,7 @@ impl Ctx {
         }
     }
     /// Execute one case on the implementation (counts as an evaluation). Every
-    /// 97th execution is repeated, on a thread of its own, and must give the identical observation (see
+    /// 499th execution is repeated, on a thread of its own, and must give the identical observation (see
     /// `drive::run_with`).
     pub fn run(&mut self, case: &Case) -> Obs {
         self.rep.evaluations += 1;
@@ -147,7 +147,7 @@ impl Ctx {
             self.snapshot();
         }
         let o = drive::run(case);
-        if self.rep.evaluations % 97 == 0 {
+        if self.rep.evaluations % 499 == 0 {
             // the repetition runs on a thread of its own: state the subject keeps between two runs of one thread
             // (which the executable, being a process per run, never sees) shows as a divergence
             let o2 = drive::on_fresh_threads(|| drive::run(case));
